@@ -5,7 +5,8 @@ SPECIFICATION TSpec
 CONSTANTS
   Ids <- TraceIds
   Cons <- TraceCons
-  UnsatFamily <- TraceFamily
+  UnsatFamily = {}
+  Unsat <- TraceUnsat
   PinFutures = FALSE
   PinTermVars = TRUE
   MaxTests = 1000000
